@@ -80,7 +80,7 @@ class Check(core.CheckBase):  # pylint: disable=too-many-public-methods
     # ---------------------------------------------------------------- workload
     def cases(self):  # pylint: disable=too-many-branches
         index = 0
-        rng = self.rng
+        rng = self.plan_rng
         for size in SIZES:
             for order in ORDERS:
                 top = min(2 ** (8 * size), 2 ** 16)
